@@ -125,3 +125,19 @@ TABLE['C05'] = {
     'level_text': 'Deductive proof that within_directory rewrites exactly the ".." components of the relative path to PAR (the regex the code uses denotes the specified transducer, for all strings) and hands the result to directory.append; that Makefile.rule / NinjaFile.build reject a second producing rule for any target text (shared with C03). Injectivity and containment of the whole naming pipeline, and stripext, are checked bounded on the real Path objects.',
     'level_note': 'Trusted: PyVC, z3, F3 regex transducer model (cross-checked). Bounded only: relpath/append/stripext composition (posixpath library).',
 }
+
+TABLE['C17'] = {
+    'modules': ['contracts.versions'],
+    'level': 'proof',
+    'assumptions': [
+        'versions form a dense total order without end points (modelled by the reals); `v in Specifier(op, w)` is the comparison (specs/verorder.py); PEP 440 pre/post-release quirks are outside the model',
+        'SpecifierSet(text) built from str() of specifiers denotes their conjunction (verspec print/parse round trip), keyed to the three return expressions of simplify_specifiers by their source text',
+        'a filtering list comprehension keeps exactly the elements that satisfy the condition (stated as ALLNEF)',
+        'the invariant and the postcondition are proved at an arbitrary version v (ghost constant)',
+        'PkgConfigInfo.finalize is verified with RequirementSet operations as recorded opaque events (their own algebra is covered bounded only)',
+    ],
+    'trusted_base': ['PyVC (pyvc/*.py)', 'z3 5.1.0', 'specs/verorder.py'],
+    'not_covered': ['Requirement.__iand__, RequirementSet.add/merge_from/split bodies', '.pc text writer beyond the bounded run; real pkg-config; consumer compilation; auto_fill'],
+    'level_text': 'Deductive proof, for all specifier lists and all versions of a dense order, that simplify_specifiers returns a set accepting exactly the versions every specifier accepts and raises ValueError only when no version does (the >=v,<=v,!=v defect this exposed was repaired), and that PkgConfigInfo.finalize adds inherited requirements before merging public and private lists. Writer and requirement algebra are checked bounded on the real classes.',
+    'level_note': 'Trusted: PyVC, z3, the dense-order model of versions, verspec print/parse round trip. Bounded only: "unsatisfiable => rejected", RequirementSet algebra, .pc writer.',
+}
